@@ -81,9 +81,11 @@ def run_case(c, ci):
                 for hi, hs in enumerate(ts["handlers"]):
                     busy = [False]
 
-                    def h(self, ret, node, frame, evt, local_guard, hi=hi, stream=stream, ti=ti, calls=hs.get("calls"), busy=busy, **kw):
+                    def h(self, ret, node, frame, evt, local_guard, hi=hi, stream=stream, ti=ti, calls=hs.get("calls"), busy=busy, sets_guard=hs.get("sets_guard"), **kw):
                         stream.append([evt.value, node_pos(node), ref_instr.canon(ret), hi])
                         glob.append([ti, evt.value, node_pos(node), hi])
+                        if sets_guard and local_guard is not None:
+                            frame.f_globals[local_guard] = True          # from now on: skip me, evaluate the expression untouched
                         if calls and not busy[0] and len(stream) % 3 == 1:
                             # an observing handler that runs instrumented code of the program (C05 / C16): nothing it emits may be delivered
                             fn = frame.f_globals.get(calls)
@@ -101,7 +103,11 @@ def run_case(c, ci):
                         kwargs["when"] = make_pred(hs["pred"])
                     if hs.get("guard") is not None:
                         g = hs["guard"]
-                        kwargs["guard"] = (lambda node, g=g: g)
+                        if isinstance(g, dict) and g.get("by") == "id":
+                            # the guard named after the variable (as in the suite's local-guard tests)
+                            kwargs["guard"] = (lambda node: "_X5ix_lg_" + node.id if isinstance(node, ast.Name) else None)
+                        else:
+                            kwargs["guard"] = (lambda node, g=g: g)
                     attrs["h%d" % hi] = pyc.register_handler(evs, **kwargs)(h)
                 if any(hs.get("guard") is not None for hs in ts["handlers"]):
                     # the documented protocol: the tracer's init_module handler defines every local guard of the module as False
